@@ -18,7 +18,7 @@ warnings.filterwarnings("ignore")
 sys.set_int_max_str_digits(0)
 
 ROOT = os.path.dirname(os.path.dirname(os.path.dirname(os.path.abspath(__file__))))  # /verif
-MAX_ROUNDS = 12
+MAX_ROUNDS = int(os.environ.get("VERIF_MAX_ROUNDS", "12"))  # one root-cause bucket per round; sensitivity tools set 1 (first violation is enough)
 NSHARDS_THOROUGH = int(os.environ.get("VERIF_SHARDS", "16"))
 
 
